@@ -222,13 +222,17 @@ def check_input_seq(si: int) -> bool:
     with notrace():
         for t in accepted:
             ref.input(t)
-    try:
-        got = xtuml.serialize(ld.build_metamodel())
-        exp = xtuml.serialize(ref.build_metamodel())
-    except ALLOWED:
-        return True
-    if got != exp:
-        LAST_DIFF = ('build after rejected inputs differs', seq, got, exp); return False
+    # the accumulated statements (kinds, values, recorded line numbers and offsets) are those of the accepted texts alone
+    if stmt_content(ld.statements) != stmt_content(ref.statements):
+        LAST_DIFF = ('accumulated statements differ from those of a fresh loader fed only the accepted texts (content / recorded positions)', seq); return False
+    outcome = []
+    for loader in (ld, ref):
+        try:
+            outcome.append(('built', xtuml.serialize(loader.build_metamodel())))
+        except ALLOWED as e:
+            outcome.append(('raised', type(e).__name__, str(e)))
+    if outcome[0] != outcome[1]:
+        LAST_DIFF = ('build after rejected inputs differs (model or diagnostic)', seq, outcome[0], outcome[1]); return False
     return True
 
 
